@@ -286,6 +286,19 @@ func (w *World) callMods(c *Ctx, m *modSet, cc *ssa.CallCommon, ex *Exec, depth 
 	if isPureExternal(callee) {
 		return
 	}
+	switch calleeOriginName(callee) {
+	case "sort.Slice", "sort.SliceStable", "sort.Strings", "sort.Ints", "slices.Sort", "slices.SortFunc", "slices.SortStableFunc":
+		if len(cc.Args) > 0 {
+			var sv ssa.Value = cc.Args[0]
+			if mi, ok := sv.(*ssa.MakeInterface); ok {
+				sv = mi.X
+			}
+			if sl, ok := sv.Type().Underlying().(*types.Slice); ok {
+				m.addElem(sl.Elem())
+				return
+			}
+		}
+	}
 	pp := funcPkgPath(callee)
 	if !strings.HasPrefix(pp, modulePath) || len(callee.Blocks) == 0 {
 		externalArgMods(m, cc.Args)
